@@ -6,9 +6,10 @@
 (* droplet value is that times 10^Places.  A text is an AMOUNT iff it      *)
 (* denotes a non-negative number whose droplet value is a whole number     *)
 (* (at most Places decimal places) that fits in MaxDigits/MaxValue.        *)
-(* PLAIN texts (unsigned, no exponent, an integer digit) must be accepted  *)
-(* iff they are amounts (".5" style texts may be, and ".0" is not, by the   *)
-(* vendored parser); every accepted text must be an amount, exact value.    *)
+(* Every accepted text must be an amount, with the exact value; every      *)
+(* amount text must be accepted, except three named shapes the vendored    *)
+(* decimal parser does not take (Tolerated: ".0", seven-digit exponents,   *)
+(* "10e-7").                                                               *)
 (* Values are digit sequences (most significant first, no leading zeros,   *)
 (* zero = << >>), so nothing here depends on TLC's 32-bit integers.        *)
 (* Checked on its own by MCDroplet (small Places / MaxValue, all short     *)
@@ -74,12 +75,27 @@ Format(v) ==
       n == Len(padded)
   IN [i \in 1..(n + 1) |-> IF i <= n - Places THEN padded[i] + 48 ELSE IF i = n - Places + 1 THEN 46 ELSE padded[i - 1] + 48]
 
+\* ---- the amounts the vendored decimal parser is known not to take (named deviations; everything else must be accepted) ----
+RECURSIVE TrimRight(_)
+TrimRight(d) == IF Len(d) > 0 /\ d[Len(d)] = 48 THEN TrimRight(SubSeq(d, 1, Len(d) - 1)) ELSE d
+Tolerated(s) ==
+  LET e == First(s, {101, 69})
+      mant == IF e = 0 THEN s ELSE SubSeq(s, 1, e - 1)
+      sg == Signed(mant)
+      p == First(sg.rest, {46})
+      ip == IF p = 0 THEN sg.rest ELSE SubSeq(sg.rest, 1, p - 1)
+      fp == IF p = 0 THEN << >> ELSE TrimRight(SubSeq(sg.rest, p + 1, Len(sg.rest)))
+      r == Read(s)
+  IN \/ Len(ip) = 0 /\ Len(fp) = 0                        \* ".0": no digit is left once the fraction's trailing zeros are dropped
+     \/ ~r.exp.small                                       \* an exponent of seven digits or more (on zero)
+     \/ Len(fp) - r.exp.n > Places                         \* written with more than Places decimals, made up for by trailing zeros: "10e-7"
+
 \* ---- verdicts on one observed call ----
 \* parse: accepted (with droplet digit sequence val) or rejected
 ParseVerdict(s, accepted, val) ==
   LET d == Denotes(s) IN
   IF accepted THEN (IF d.class # "ok" THEN "accepted-" \o d.class ELSE IF val # d.value THEN "wrong-value" ELSE "ok")
-  ELSE IF d.class = "ok" /\ Read(s).plain THEN "plain-amount-rejected" ELSE "ok"
+  ELSE IF d.class = "ok" /\ ~Tolerated(s) THEN (IF Read(s).plain THEN "plain-amount-rejected" ELSE "amount-rejected") ELSE "ok"
 \* format of a value that fits: the text, and parsing that text gives the value back
 FormatVerdict(v, ok, text, backOk, back) ==
   IF ~Le(v, MaxValue) THEN (IF ok THEN "formatted-unrepresentable" ELSE "ok")
